@@ -226,7 +226,7 @@ def explore_yaml(chk, rng, n):
     lines, meta = [], []
     for _ in range(n):
         k = rng.choice([1, 2, 3, 4])
-        specs, ytext, applists = [], "api_version: v1\nname: X\nspec:\n", []
+        specs, ytext, applists, scal = [], "api_version: v1\nname: X\nspec:\n", [], []
         for i in range(k):
             mode = rng.choice(["Client", "SERVER", "server", "client", "cLiEnT"])
             tr = rng.choice([None, None, "TCP", "sctp", "Sctp", "tcp"])
@@ -238,25 +238,34 @@ def explore_yaml(chk, rng, n):
                 ytext += "  - applications:\n" + "".join("      - vendor_id: VENDOR_ID_3GPP\n        app_id: %s\n" % a for a in apps)
             else:
                 ytext += "  - applications: []\n"
-            ytext += "    mode: %s\n    watchdog_timeout: %d\n" % (mode, 30 + i)
+            # scalars as a YAML author may write them: integers, fractions, quoted numbers, other radices. What counts as the
+            # configured value is what the YAML reader makes of the scalar; it must arrive exactly so (type and value)
+            wd_text = rng.choice([str(30 + i)] * 4 + ["2.5", "0.9", "7.0", '"30"', "0", "0x1e", "1e1", "'45'"])
+            lp_text = rng.choice([str(3868 + i)] * 4 + ['"3868"', "3868.0", "65535", "0", "3868.5"])
+            pp_text = rng.choice(["3868"] * 4 + ['"3869"', "3869.9", "1"])
+            scal.append((wd_text, lp_text, pp_text))
+            ytext += "    mode: %s\n    watchdog_timeout: %s\n" % (mode, wd_text)
             if tr is not None:
                 ytext += "    transport_type: %s\n" % tr
-            ytext += "    local:\n      ip_address: 127.0.0.1\n      hostname: l%d\n      realm: r\n      port: %d\n" % (i, 3868 + i)
-            ytext += "    peer:\n      ip_address: 10.0.0.%d\n      hostname: p%d\n      realm: r\n      port: 3868\n" % (i, i)
+            ytext += "    local:\n      ip_address: 127.0.0.1\n      hostname: l%d\n      realm: r\n      port: %s\n" % (i, lp_text)
+            ytext += "    peer:\n      ip_address: 10.0.0.%d\n      hostname: p%d\n      realm: r\n      port: %s\n" % (i, i, pp_text)
         with open(path, "w") as f:
             f.write(ytext)
         try:
             got = _convert_file_to_config(path, vars(K))
-            res = [(c["MODE"], c["TRANSPORT_TYPE"], c["APPLICATIONS"], c["LOCAL_NODE_HOSTNAME"], c["PEER_NODE_IP_ADDRESS"], c["WATCHDOG_TIMEOUT"]) for c in got]
+            res = [(c["MODE"], c["TRANSPORT_TYPE"], c["APPLICATIONS"], c["LOCAL_NODE_HOSTNAME"], c["PEER_NODE_IP_ADDRESS"], c["WATCHDOG_TIMEOUT"],
+                    c["LOCAL_NODE_PORT"], c["PEER_NODE_PORT"]) for c in got]
         except BaseException as e:
             if isinstance(e, (KeyboardInterrupt, SystemExit)):
                 raise
             res = "exc:" + type(e).__name__
         lines.append("yaml " + " ".join("%s %s" % (m.encode().hex(), "-" if t is None else t.encode().hex()) for m, t in specs))
-        meta.append((specs, res, applists))
+        meta.append((specs, res, applists, scal))
     out = core.run_driver(lines)
-    for (specs, res, applists), o in zip(meta, out):
-        inp = {"op": "yaml", "entries": [[m, t, a] for (m, t), a in zip(specs, applists)]}
+    import yaml as _yaml
+    same = lambda a, b: type(a) is type(b) and a == b
+    for (specs, res, applists, scal), o in zip(meta, out):
+        inp = {"op": "yaml", "entries": [[m, t, a] for (m, t), a in zip(specs, applists)], "scalars(watchdog,local port,peer port)": scal}
         chk.case(inp, kind="yaml:%d-entries" % len(specs))
         if isinstance(res, str):
             chk.violation("YAML specification could not be converted", inp, "one configuration per entry", res)
@@ -269,7 +278,12 @@ def explore_yaml(chk, rng, n):
             chk.violation("YAML entries are not mapped one-to-one with case-normalised mode/transport and TCP by default", inp, want,
                           [(r[0], r[1]) for r in res])
         for i, r in enumerate(res):
-            if r[2] != [{"vendor_id": VID, "app_id": getattr(K, a)} for a in applists[i]] or r[3] != "l%d" % i or r[4] != "10.0.0.%d" % i or r[5] != 30 + i:
+            wd, lp, pp = (_yaml.safe_load(t) for t in scal[i])
+            if not (same(r[5], wd) and same(r[6], lp) and same(r[7], pp)):
+                chk.violation("YAML entry: watchdog timeout / ports are not the configured values", inp,
+                              {"watchdog": repr(wd), "local_port": repr(lp), "peer_port": repr(pp)},
+                              {"watchdog": repr(r[5]), "local_port": repr(r[6]), "peer_port": repr(r[7])})
+            if r[2] != [{"vendor_id": VID, "app_id": getattr(K, a)} for a in applists[i]] or r[3] != "l%d" % i or r[4] != "10.0.0.%d" % i:
                 chk.violation("YAML entry not reflected (applications resolved by name, identities, addresses, timeout)", inp,
                               "entry %d as written" % i, str(r[2:])[:200])
     try:
